@@ -97,8 +97,10 @@ def run_for(pid):
         out[name] = run_seed(name, [pid])[pid]
     for name, p, expect in mutants_for(pid):
         out['mutant ' + name] = run_mutant(name, p, expect)
-    for name in benign_sets():
-        out['benign ' + name] = run_benign(name, pid)
+    if os.environ.get('IREF_SELFTEST_BENIGN'):
+        # the behaviour-preserving refactor sets are replayed for ALL checks by ./selftest.sh (about an hour); per property only on request
+        for name in benign_sets():
+            out['benign ' + name] = run_benign(name, pid)
     return out
 
 
